@@ -111,6 +111,10 @@ func (ch *Channel) Invoke(ctx context.Context, methodName string, req, resp inte
 	case <-respCh:
 	}
 	if err != nil {
+		if ctxErr := ctx.Err(); ctxErr != nil {
+			// reading the reply failed because the context ended
+			return statusFromContextError(ctxErr)
+		}
 		return err
 	}
 	return codec.Unmarshal(b, resp)
@@ -441,6 +445,11 @@ func (cs *clientStream) doHttpCall(transport http.RoundTripper, req *http.Reques
 			cs.rMu.Lock()
 		}
 
+		if ctxErr := cs.ctx.Err(); ctxErr != nil && (rErr != nil || cs.rErr != nil) {
+			// reading the reply failed because the context ended: report
+			// that as a gRPC status, not as the transport's raw error
+			rErr, cs.rErr = nil, statusFromContextError(ctxErr)
+		}
 		if rErr != nil && cs.rErr == nil {
 			cs.rErr = rErr
 		}
